@@ -595,6 +595,28 @@ func TestC10Boundaries(t *testing.T) {
 			add(EncSpec{Fam: "aztec", Content: BStr(strings.Repeat("7", n*2)), A: pct, B: 32})
 		}
 	}
+	// lengths whose character / codeword count wraps a 16- or 17-bit counter back into the valid range: far beyond every
+	// capacity, must fail cleanly
+	for _, k := range []int{1 << 16, 1<<16 + 5, 1<<16 + 1000, 1 << 17, 1<<17 + 44} {
+		add(EncSpec{Fam: "datamatrix", Content: BStr(strings.Repeat("A", k))})
+		add(EncSpec{Fam: "datamatrix", Content: BStr(strings.Repeat("42", k))})
+		add(EncSpec{Fam: "datamatrix", Content: BStr(strings.Repeat("\x99", k/2))})
+		for _, l := range []int{0, 3} {
+			add(EncSpec{Fam: "qr", Content: BStr(strings.Repeat("8", k)), A: l, B: 1})
+			add(EncSpec{Fam: "qr", Content: BStr(strings.Repeat("8", k)), A: l, B: 0})
+			add(EncSpec{Fam: "qr", Content: BStr(strings.Repeat("K", k)), A: l, B: 2})
+			add(EncSpec{Fam: "qr", Content: BStr(strings.Repeat("\x81", k)), A: l, B: 3})
+		}
+		for _, l := range []int{0, 8} {
+			add(EncSpec{Fam: "pdf417", Content: BStr(strings.Repeat("A", 2*k)), A: l})
+			add(EncSpec{Fam: "pdf417", Content: BStr(strings.Repeat("7", k)), A: l})
+			// (no byte contents of this length for PDF417: its byte compaction is quadratic in the input length - 48 s for
+			// 65536 bytes on the unchanged tree - which is slow, not a hang; 8000 bytes are tried instead)
+			add(EncSpec{Fam: "pdf417", Content: BStr(strings.Repeat("\xc8", 8000+k%7)), A: l})
+		}
+	}
+	add(EncSpec{Fam: "aztec", Content: BStr(strings.Repeat("A", 1<<16+3)), A: 0})
+	add(EncSpec{Fam: "aztec", Content: BStr(strings.Repeat("\x99", 1<<16+1)), A: 23, B: 32})
 	// Aztec: layer range, homogeneous payloads around every size's capacity, huge percentages
 	for l := -40; l <= 40; l++ {
 		add(EncSpec{Fam: "aztec", Content: BStr("A"), A: 33, B: l})
@@ -670,6 +692,15 @@ func TestC10Boundaries(t *testing.T) {
 				s.Content = BStr{'A', byte(b), 'B'}
 				add(s)
 				s.Content = BStr{'1', '2', byte(b), '4'}
+				add(s)
+				// the same foreign byte twice, at pair starts and pair ends (parsers that look at characters in pairs)
+				s.Content = BStr{byte(b), byte(b)}
+				add(s)
+				s.Content = BStr{byte(b), byte(b), '1', '2'}
+				add(s)
+				s.Content = BStr{'1', '2', byte(b), byte(b)}
+				add(s)
+				s.Content = BStr{byte(b), '1', '2', byte(b)}
 				add(s)
 			}
 			for _, r := range []rune{0x7f, 0x80, 0xa0, 0xf0, 0xf1, 0xf2, 0xf3, 0xf4, 0xf5, 0xff, 0x100, 0xfffd, 0x10ffff} {
